@@ -96,6 +96,7 @@ func runC06(c *kit.Ctx) {
 	c.StartRule("R2", "whole rows only, unless partial results were asked for", 3)
 	noFetchedRowIsSkipped(c)
 	endOfScanRowHasCells(c)
+	decodedFlagsAreNotShared(c)
 	{
 		eof := p.SSA.ImportedPackage("io")
 		var eofG *ssa.Global
@@ -172,6 +173,7 @@ func runC06(c *kit.Ctx) {
 
 	// ---- R3 ---------------------------------------------------------------
 	c.StartRule("R3", "open/continue request provenance", 3)
+	endOfTableIsDecidedByLength(c)
 	scanRequestLevelOptions(c)
 	{
 		startRowF := p.Field("", "scanner", "startRow")
